@@ -37,4 +37,9 @@ def update2 {β : Type} (f : Nat → Nat → β) (i j : Nat) (v : β) : Nat → 
 def setRow {β : Type} [Inhabited β] (f : Nat → Nat → β) (r : Nat) (row : List β) : Nat → Nat → β :=
   fun a b => if a = r ∧ b < row.length then row.getD b default else f a b
 
+/-- how a translated `for` loop whose body contains `return` ends: the function returns `r`, or the loop is over with state `s` -/
+inductive Flow (ρ σ : Type) where
+  | ret : ρ → Flow ρ σ
+  | next : σ → Flow ρ σ
+
 end OdeVerif.Py
